@@ -75,6 +75,8 @@ pub struct ClientView {
     pub aliases: HashMap<u16, Vec<u8>>,
     /// retained replays received: (sub index, topic, serial)
     pub retained_got: Vec<(usize, String, u64)>,
+    /// QoS of the replayed forward behind each entry of `retained_got`
+    pub retained_got_qos: Vec<u8>,
     /// per group name: last acceptance index received through it
     pub last_shared: HashMap<String, usize>,
     pub forwards_seen: u64,
@@ -161,7 +163,7 @@ impl Model {
         let tainted = self.conns[serial].tainted;
         let mut retained_subs_touched: HashSet<usize> = HashSet::new();
         let mut live_subs_touched: HashSet<usize> = HashSet::new();
-        for n in notifs {
+        for (pos, n) in notifs.iter().enumerate() {
             match n {
                 Notification::Forward(f) => {
                     view.forwards_seen += 1;
@@ -265,36 +267,79 @@ impl Model {
                     if f.publish.retain {
                         // retained replay
                         let c = &self.conns[serial];
-                        let cand = c
+                        let now = self.now();
+                        // subscriptions that are still owed a replay of this topic (a subscription
+                        // removed before its replay was drained still counts)
+                        let owed: Vec<usize> = c
                             .subs
                             .iter()
                             .enumerate()
                             .filter(|(i, s)| {
-                                // (a subscription removed before its replay was drained still counts)
                                 s.retained_due
-                                    && (s.qos == qos || s.qos_uncertain)
                                     && match3(&self.log[idx], &s.path) != M3::No
                                     && !view
                                         .retained_got
                                         .iter()
                                         .any(|(gi, t, _)| gi == i && *t == self.log[idx].topic)
                             })
-                            .collect::<Vec<_>>();
-                        let now = self.now();
-                        let any_candidate = !cand.is_empty();
+                            .map(|(i, _)| i)
+                            .collect();
+                        let any_candidate = owed.iter().any(|i| c.subs[*i].qos_ok(qos, idx));
                         // the replay happens when the request is first served, normally right
-                        // after the SUBSCRIBE: among the subscriptions for which the value was the
-                        // topic's retained message at some moment of their window, prefer the newest
-                        let cand = cand
-                            .into_iter()
-                            .filter(|(_, s)| {
+                        // after the SUBSCRIBE: only subscriptions for which the value was the
+                        // topic's retained message at some moment of their window qualify
+                        let pool: Vec<usize> = owed
+                            .iter()
+                            .copied()
+                            .filter(|i| {
                                 self.retained_uncertain
                                     || self
-                                        .retained_in_window(&self.log[idx].topic, s.made_at, now)
+                                        .retained_in_window(&self.log[idx].topic, c.subs[*i].made_at, now)
                                         .contains(&Some(self.log[idx].serial))
                             })
-                            .max_by_key(|(_, s)| s.made_at)
-                            .map(|(i, _)| i);
+                            .collect();
+                        // replays of the same topic later in this batch must still find a
+                        // subscription each (a repeated subscription may be served with its old
+                        // or its new QoS, so the choice here is not always forced)
+                        let later: Vec<(u8, usize)> = notifs[pos + 1..]
+                            .iter()
+                            .filter_map(|n| match n {
+                                Notification::Forward(g) if g.publish.retain && g.publish.topic == f.publish.topic && !g.publish.topic.is_empty() => {
+                                    let at = parse_serial(&g.publish.payload).and_then(|s| self.by_serial.get(&s).copied()).unwrap_or(idx);
+                                    Some((publish_header(&g.publish).0, at))
+                                }
+                                _ => None,
+                            })
+                            .collect();
+                        fn feasible(later: &[(u8, usize)], avail: &[usize], ok: &dyn Fn(usize, u8, usize) -> bool) -> bool {
+                            match later.split_first() {
+                                None => true,
+                                Some(((q, at), rest)) => avail.iter().enumerate().any(|(k, s)| {
+                                    ok(*s, *q, *at) && {
+                                        let mut a = avail.to_vec();
+                                        a.remove(k);
+                                        feasible(rest, &a, ok)
+                                    }
+                                }),
+                            }
+                        }
+                        // (each replay judged against the window of its own value)
+                        let ok = |i: usize, q: u8, at: usize| {
+                            c.subs[i].qos_ok(q, at)
+                                && (self.retained_uncertain
+                                    || self.retained_in_window(&self.log[idx].topic, c.subs[i].made_at, now).contains(&Some(self.log[at].serial)))
+                        };
+                        let mut mine: Vec<usize> = pool.iter().copied().filter(|i| ok(*i, qos, idx)).collect();
+                        // preference: current QoS before a QoS held earlier, then the newest
+                        mine.sort_by_key(|i| std::cmp::Reverse((c.subs[*i].qos == qos, c.subs[*i].made_at, *i)));
+                        let cand = mine
+                            .iter()
+                            .copied()
+                            .find(|i| {
+                                let rest: Vec<usize> = owed.iter().copied().filter(|k| k != i).collect();
+                                later.len() > 6 || feasible(&later, &rest, &ok)
+                            })
+                            .or(mine.first().copied());
                         if cand.is_none() && any_candidate && flags.retained && !tainted {
                             fail!(
                                 "retained:stale_or_cleared_value",
@@ -303,12 +348,77 @@ impl Model {
                                 self.log[idx].topic
                             );
                         }
+                        // no subscription left for this replay: earlier replays of the topic (seen in
+                        // earlier drains) may have been credited to the wrong ones among several
+                        // subscriptions that could have been their source. Look for any assignment
+                        // of all replays of this topic seen so far to distinct subscriptions.
+                        let mut cand = cand;
+                        if cand.is_none() {
+                            let topic_s = self.log[idx].topic.clone();
+                            let subs_all: Vec<usize> = c
+                                .subs
+                                .iter()
+                                .enumerate()
+                                .filter(|(_, s)| s.retained_due && match3(&self.log[idx], &s.path) != M3::No)
+                                .map(|(k, _)| k)
+                                .collect();
+                            let mut items: Vec<(u8, usize, u64)> = view
+                                .retained_got
+                                .iter()
+                                .zip(view.retained_got_qos.iter())
+                                .filter(|((_, t, _), _)| *t == topic_s)
+                                .map(|((_, _, ser), q)| (*q, self.by_serial.get(ser).copied().unwrap_or(idx), *ser))
+                                .collect();
+                            items.push((qos, idx, self.log[idx].serial));
+                            fn assign(items: &[(u8, usize, u64)], avail: &[usize], ok: &dyn Fn(usize, u8, usize) -> bool, out: &mut Vec<usize>) -> bool {
+                                match items.split_first() {
+                                    None => true,
+                                    Some(((q, at, _), rest)) => {
+                                        for (k, s) in avail.iter().enumerate() {
+                                            if ok(*s, *q, *at) {
+                                                let mut a = avail.to_vec();
+                                                a.remove(k);
+                                                out.push(*s);
+                                                if assign(rest, &a, ok, out) {
+                                                    return true;
+                                                }
+                                                out.pop();
+                                            }
+                                        }
+                                        false
+                                    }
+                                }
+                            }
+                            let mut out = Vec::new();
+                            if items.len() <= 8 && assign(&items, &subs_all, &ok, &mut out) {
+                                let mut keep_got = Vec::new();
+                                let mut keep_qos = Vec::new();
+                                for (e, q) in view.retained_got.iter().zip(view.retained_got_qos.iter()) {
+                                    if e.1 != topic_s {
+                                        keep_got.push(e.clone());
+                                        keep_qos.push(*q);
+                                    }
+                                }
+                                for ((q, _, ser), k) in items[..items.len() - 1].iter().zip(out.iter()) {
+                                    keep_got.push((*k, topic_s.clone(), *ser));
+                                    keep_qos.push(*q);
+                                    retained_subs_touched.insert(*k);
+                                }
+                                view.retained_got = keep_got;
+                                view.retained_got_qos = keep_qos;
+                                cand = out.last().copied();
+                            }
+                        }
                         match cand {
                             Some(i) => {
                                 view.retained_got.push((i, self.log[idx].topic.clone(), self.log[idx].serial));
+                                view.retained_got_qos.push(qos);
                                 retained_subs_touched.insert(i);
                             }
                             None => {
+                                if std::env::var_os("VERIF_TRACE").is_some() {
+                                    eprintln!("   retained not owed: idx={idx} qos={qos} pool={pool:?} mine={mine:?} later={later:?} got={:?} window={:?}", view.retained_got, c.subs.iter().map(|s| self.retained_in_window(&self.log[idx].topic, s.made_at, now)).collect::<Vec<_>>());
+                                }
                                 if flags.retained && !tainted {
                                     fail!(
                                         "retained:flag_on_forward_not_owed",
@@ -529,7 +639,7 @@ impl Model {
                     }
                     continue;
                 }
-                if sub.qos != qos && !sub.qos_uncertain {
+                if !sub.qos_ok(qos, idx) {
                     saw_qos = true;
                     continue;
                 }
@@ -628,7 +738,7 @@ impl Model {
         let slot = self.conns[serial].slot;
         let now = self.now();
         self.conns[serial].subs.iter().filter(|s| s.group.is_some()).any(|s| {
-            (s.qos == qos || s.qos_uncertain)
+            s.qos_ok(qos, idx)
                 && self.groups.iter().any(|g| {
                     Some(&g.name) == s.group.as_ref()
                         && idx >= g.created_at
@@ -654,14 +764,14 @@ impl Model {
             .subs
             .iter()
             .filter(|s| s.group.is_some())
-            .map(|s| (s.group.clone().unwrap(), s.qos, s.qos_uncertain))
+            .map(|s| (s.group.clone().unwrap(), s.qos, s.qos_ok(qos, idx)))
             .collect();
         let mut twice: Option<usize> = None;
         if std::env::var_os("VERIF_TRACE2").is_some() && idx >= 98 {
             eprintln!("try_shared serial={serial} idx={idx} qos={qos} subs={subs:?} now={now}");
         }
-        for (gname, sq, unc) in subs {
-            if sq != qos && !unc {
+        for (gname, _sq, qos_ok) in subs {
+            if !qos_ok {
                 continue;
             }
             for gi in 0..self.groups.len() {
@@ -784,12 +894,18 @@ impl Model {
         // the replay is bounded by the delivery window: a larger retained set may be cut
         let c = &self.conns[serial];
         let _ = c;
-        let window_free = if qos > 0 {
+        let by_window = 100usize.saturating_sub(view.max_window + 1);
+        let by_batch = self.cfg.max_out as usize;
+        let window_free = if !self.conns[serial].subs[i].old_qos.is_empty() {
+            // the subscription was repeated with another QoS: the replay may have been served
+            // under either
+            by_window.min(by_batch)
+        } else if qos > 0 {
             // free slots at the (unknown) moment of the replay: bounded below by what the
             // client ever saw unacknowledged on this connection
-            100usize.saturating_sub(view.max_window + 1)
+            by_window
         } else {
-            self.cfg.max_out as usize
+            by_batch
         };
         let _ = required;
         if !missing.is_empty() && !optional && competing + 1 < window_free.min(90) {
